@@ -1183,3 +1183,235 @@ func c09RevalidateUnconditional(c *Ctx, pkStore *packages.Package, isMarkerPath 
 		c.Fail(rule, "anchor", token.NoPos, "no marker read followed by an isValid() decision found in the store")
 	}
 }
+
+// ruleCopyCtorComplete (COPY-COMPLETE): a method that returns a modified copy of its receiver by spelling out a
+// composite literal of the receiver's own struct type (`&module{a: m.a, b: m.b, isTarget: isTarget, …}`) must name
+// every field of the struct: a field left out silently becomes zero in the copy (withIsTarget without commitID: every
+// image built after re-targeting loses the owning module's commit). A literal counts as such a copy when at least
+// half of its elements are `f: recv.f`. Fields that are deliberately reset must be written down with their new value
+// (`cache: nil`), which also documents the intent.
+func ruleCopyCtorComplete(c *Ctx, rule string, pkgs []*packages.Package, min int) {
+	c.Rule(rule, "a field-by-field copy of a struct names every field", min)
+	p := c.P
+	for _, pk := range pkgs {
+		info := pk.TypesInfo
+		for _, fr := range p.FuncsOf(pk) {
+			if fr.Decl.Body == nil || fr.Decl.Recv == nil || len(fr.Decl.Recv.List) != 1 || len(fr.Decl.Recv.List[0].Names) != 1 {
+				continue
+			}
+			recv := info.Defs[fr.Decl.Recv.List[0].Names[0]]
+			if recv == nil {
+				continue
+			}
+			rt := recv.Type()
+			if pt, ok := rt.(*types.Pointer); ok {
+				rt = pt.Elem()
+			}
+			st, ok := rt.Underlying().(*types.Struct)
+			if !ok {
+				continue
+			}
+			k := 0
+			ast.Inspect(fr.Decl.Body, func(n ast.Node) bool {
+				lit, ok := n.(*ast.CompositeLit)
+				if !ok || len(lit.Elts) == 0 {
+					return true
+				}
+				lt := info.TypeOf(lit)
+				if lt == nil || !types.Identical(lt, rt) {
+					return true
+				}
+				named := map[string]bool{}
+				copies := 0
+				for _, el := range lit.Elts {
+					kv, ok := el.(*ast.KeyValueExpr)
+					if !ok {
+						return true // positional literal: the compiler demands every field
+					}
+					key := kv.Key.(*ast.Ident).Name
+					named[key] = true
+					if sel, ok := ast.Unparen(kv.Value).(*ast.SelectorExpr); ok && sel.Sel.Name == key && identObj(info, sel.X) == recv {
+						copies++
+					}
+				}
+				if copies*2 < len(lit.Elts) || copies < 3 {
+					return true
+				}
+				k++
+				// fields given a value right after the literal (`x := &T{…}; x.f = …`) are named too
+				if holder := litHolder(p, info, lit); holder != nil {
+					ast.Inspect(fr.Decl.Body, func(m ast.Node) bool {
+						if as, ok := m.(*ast.AssignStmt); ok {
+							for _, l := range as.Lhs {
+								if sel, ok := ast.Unparen(l).(*ast.SelectorExpr); ok && identObj(info, sel.X) == holder {
+									named[sel.Sel.Name] = true
+								}
+							}
+						}
+						return true
+					})
+				}
+				var missing []string
+				for i := 0; i < st.NumFields(); i++ {
+					if f := st.Field(i); !named[f.Name()] && !c.copyFieldExempt(relPkg(pk.PkgPath)+"."+namedName(rt)+"."+f.Name()) {
+						missing = append(missing, f.Name())
+					}
+				}
+				c.Ob(rule, fmt.Sprintf("%s.%s#%d", relPkg(pk.PkgPath), declName(fr.Decl), k), lit.Pos(), len(missing) == 0, true, "copy of %s names %d of %d fields; left to their zero value: %v", namedName(rt), len(named), st.NumFields(), missing)
+				return true
+			})
+		}
+	}
+}
+
+// copyFieldsReset lists fields that a copy deliberately leaves at zero (lazily computed caches that must be rebuilt
+// for the copy), one line of reason each.
+var copyFieldsReset = map[string]string{
+	"private/bufpkg/bufmodule.module.moduleSet":                           "the back pointer is installed by the ModuleSet that owns the copy (setModuleSet), never inherited",
+	"private/bufpkg/bufmodule.moduleReadBucket.pathToFileInfoCache":       "per-bucket memo of file infos, which embed the owning module: must start empty for the copy (zero value is an empty cache)",
+	"private/bufpkg/bufmodule.moduleReadBucket.pathToFastscanResultCache": "per-bucket memo; zero value is an empty cache",
+}
+
+// litHolder returns the variable a composite literal (or its address) is assigned to, if any.
+func litHolder(p *Prog, info *types.Info, lit *ast.CompositeLit) types.Object {
+	var n ast.Node = lit
+	par := p.Parent(n)
+	if ue, ok := par.(*ast.UnaryExpr); ok && ue.Op == token.AND {
+		n, par = ue, p.Parent(ue)
+	}
+	if as, ok := par.(*ast.AssignStmt); ok && len(as.Lhs) == len(as.Rhs) {
+		for i, r := range as.Rhs {
+			if ast.Node(r) == n {
+				return identObj(info, as.Lhs[i])
+			}
+		}
+	}
+	return nil
+}
+
+func (c *Ctx) copyFieldExempt(key string) bool {
+	_, ok := copyFieldsReset[key]
+	return ok
+}
+
+// c01KeyByFullName (KEY-BY-FULL-NAME): a map that stands for "per module" state must be keyed by the module's full
+// name (registry/owner/name, FullName.String()); keying by one component (Name(), Owner(), Registry()) makes two
+// different modules that share that component one entry - buf.build/acme/common and buf.build/acme-labs/common then
+// fail the image's one-commit-per-module validation although the workspace is perfectly buildable. Decided on SSA for
+// the image and module packages: no map key is derived from a component accessor of a bufparse.FullName unless the
+// full string is part of the key too.
+func c01KeyByFullName(c *Ctx) {
+	const rule = "KEY-BY-FULL-NAME"
+	c.Rule(rule, "maps keyed by a module are keyed by its full name, not by one component of it", 1)
+	p := c.P
+	var pkgs []*packages.Package
+	for _, rel := range []string{"private/bufpkg/bufimage", "private/bufpkg/bufmodule"} {
+		if q := p.Pkg(rel); q != nil {
+			pkgs = append(pkgs, q)
+		}
+	}
+	n := 0
+	for _, sf := range p.SSAFuncsOf(pkgs) {
+		for _, f := range allSSAFuncs(sf) {
+			for _, b := range f.Blocks {
+				for _, ins := range b.Instrs {
+					var key ssa.Value
+					switch x := ins.(type) {
+					case *ssa.MapUpdate:
+						key = x.Key
+					case *ssa.Lookup:
+						if _, isMap := x.X.Type().Underlying().(*types.Map); isMap {
+							key = x.Index
+						}
+					}
+					if key == nil {
+						continue
+					}
+					full, comp := false, ""
+					sliceBack(key, func(x ssa.Value) bool {
+						if cc, ok := x.(*ssa.Call); ok && cc.Call.IsInvoke() && namedName(cc.Call.Value.Type()) == "FullName" && strings.HasSuffix(namedPath(cc.Call.Value.Type()), "bufparse.FullName") {
+							switch cc.Call.Method.Name() {
+							case "String":
+								full = true
+							case "Name", "Owner", "Registry":
+								comp = cc.Call.Method.Name()
+							}
+						}
+						return true
+					})
+					if !full && comp == "" {
+						continue
+					}
+					n++
+					c.Ob(rule, fmt.Sprintf("%s/key#%d", ssaFuncName(f), n), ins.Pos(), full || comp == "", true, "the map key is built from the module's full name: %v (component used alone: %q)", full, comp)
+				}
+			}
+		}
+	}
+	if n == 0 {
+		c.Fail(rule, "anchor", token.NoPos, "no map keyed by a module full name found in bufimage/bufmodule")
+	}
+}
+
+// c01WarningsAllFiles (WARNINGS-ALL-FILES): the unspecified-syntax marker and the unused-import markers of a file are
+// taken from compiler *warnings*. The parser warns about a missing syntax line for every file it parses - imports
+// included - so the loop that turns warnings into markers has to look at every warning: the recording calls are
+// top-level statements of the loop over the warnings and nothing before them can `continue` past a warning. A filter
+// ("only files we asked to compile") loses the marker on every file that is in the image as an import.
+func c01WarningsAllFiles(c *Ctx) {
+	const rule = "WARNINGS-ALL-FILES"
+	c.Rule(rule, "every compiler warning is offered to the syntax-unspecified and unused-import recorders", 2)
+	p := c.P
+	pk := p.Pkg("private/bufpkg/bufimage")
+	if pk == nil {
+		c.Fail(rule, "anchor", token.NoPos, "bufimage not found")
+		return
+	}
+	info := pk.TypesInfo
+	recorders := map[string]bool{"maybeAddSyntaxUnspecified": true, "maybeAddUnusedImport": true}
+	found := 0
+	for _, fr := range p.FuncsOf(pk) {
+		if fr.Decl.Body == nil {
+			continue
+		}
+		ast.Inspect(fr.Decl.Body, func(n ast.Node) bool {
+			rs, ok := n.(*ast.RangeStmt)
+			if !ok {
+				return true
+			}
+			for i, st := range rs.Body.List {
+				es, ok := st.(*ast.ExprStmt)
+				if !ok {
+					continue
+				}
+				call, ok := es.X.(*ast.CallExpr)
+				if !ok {
+					continue
+				}
+				fn := Callee(info, call)
+				if fn == nil || !recorders[fn.Name()] {
+					continue
+				}
+				found++
+				// nothing before it in the loop body can skip it
+				skips := 0
+				for _, prev := range rs.Body.List[:i] {
+					inspectNoFuncLit(prev, func(m ast.Node) bool {
+						if b, ok := m.(*ast.BranchStmt); ok && (b.Tok == token.CONTINUE || b.Tok == token.BREAK || b.Tok == token.GOTO) {
+							skips++
+						}
+						if _, ok := m.(*ast.ReturnStmt); ok {
+							skips++
+						}
+						return true
+					})
+				}
+				c.Ob(rule, fr.Decl.Name.Name+"/"+fn.Name(), call.Pos(), skips == 0, true, "%s is called for every warning (statements before it that can leave the iteration: %d)", fn.Name(), skips)
+			}
+			return true
+		})
+	}
+	if found < 2 {
+		c.Fail(rule, "anchor", token.NoPos, "the warning loop calling maybeAddSyntaxUnspecified / maybeAddUnusedImport was not found (%d recorder calls at loop top level)", found)
+	}
+}
